@@ -14,7 +14,7 @@ LEVEL = "exploration"
 RULE = ("a case is (scheme, configuration, database SHAPE drawn by Hypothesis: 2..10 keywords, list lengths 1..12, which pool "
         "identifiers sit under which keyword incl. one identifier under every keyword; database CONTENT from a seeded DRBG: "
         "keywords of 8..24 random bytes, identifiers of 8..20 random bytes; SSE-1/2 keyword fields up to 128 bytes; some builds perform "
-        "exactly 256 encryptions). Two setups under one key with one scheme object, one with a brand-new scheme instance, one under a second "
+        "exactly 256 encryptions). Two setups under one key with one scheme object, one with a brand-new scheme instance, for a seventh of the cases two more in fresh interpreters and two in workers forked from a warmed-up parent, one under a second "
         "key. Oracles: (a) no keyword and (except SSE-2) no identifier is a substring of EDB.serialize() or of any token "
         "(asserted only while the chance of an accidental hit is < 1e-15); (b) all 16-byte blocks of all ciphertext-bearing "
         "entries of one index are pairwise distinct; (c) those block sets of two indexes of the same (key, DB) are disjoint; "
@@ -202,6 +202,31 @@ def run_case(case, res=None):
     if inter:
         raise Violation("%s: %d ciphertext blocks are shared by the setups of two scheme instances for the same (key, DB)" % (scheme, len(inter)),
                         "%s:blocks_shared_between_instances" % scheme)
+    if case.get("process_boundary") and scheme != "CGKO06.SSE2":
+        # the same (key, DB) encrypted by two FRESH interpreters (what two runs of a command-line client do), and by two workers
+        # forked from a parent that has already used the library
+        from vlib import fresh
+        job = {"kind": "setup", "scheme": scheme, "cfg": cfg, "key_hex": key1.serialize().hex(), "db": fresh.db_to_json(db)}
+        outs = [fresh.run_job(job, hashseed=11 + i) for i in range(2)]
+        forked = fresh.run_job(dict(job, kind="setup_forked"), hashseed=29)
+        from vlib.runner import HarnessError
+        for o in outs + [forked]:
+            if "error" in o:
+                raise HarnessError("fresh-interpreter setup failed: %s" % o["error"])
+            if "exception" in o:
+                raise Violation("%s: setup in a fresh interpreter raised: %s" % (scheme, o["exception"]), "%s:fresh_interpreter_exception" % scheme)
+        sets = [set(blocks_of(cipher_values(scheme, S.edb_payload(bytes.fromhex(o["edb_hex"]))))) for o in outs]
+        if sets[0] & sets[1]:
+            raise Violation("%s: %d ciphertext blocks are shared by the indexes two fresh interpreters build from the same (key, DB)" % (
+                scheme, len(sets[0] & sets[1])), "%s:blocks_shared_between_processes" % scheme)
+        if any(x.startswith("ERROR") for x in forked["edb_hex_list"]):
+            raise Violation("%s: setup in a forked worker failed: %s" % (scheme, forked["edb_hex_list"]), "%s:forked_worker_exception" % scheme)
+        fsets = [set(blocks_of(cipher_values(scheme, S.edb_payload(bytes.fromhex(x))))) for x in forked["edb_hex_list"]]
+        if fsets[0] & fsets[1]:
+            raise Violation("%s: %d ciphertext blocks are shared by the indexes of two workers forked from one parent" % (
+                scheme, len(fsets[0] & fsets[1])), "%s:blocks_shared_between_forked_workers" % scheme)
+        if res is not None:
+            res.cls("process_boundary_checked")
     if scheme != "CGKO06.SSE2" and b1 and raw1 == raw1b:
         raise Violation("%s: two setups of the same (key, DB) are byte-identical" % scheme, "%s:identical_setups" % scheme)
     # (d) keyed-ness of labels and tokens
@@ -230,6 +255,7 @@ def shape_stats(case):
 
 
 def body(case, res):
+    case.setdefault("process_boundary", case["seed"] % 7 == 0 and sum(len(x) for x in case["shape"]) <= 60)
     nblocks = [0]
     maxocc = shape_stats(case)
     try:
